@@ -61,6 +61,7 @@ func fab(prev bitcoin.Hash32, nonce uint32) *wire.BlockHeader {
 func newSplWorld(fix []*wire.BlockHeader) *splWorld {
 	w := &splWorld{ctx: logger.ContextWithNoLogger(context.Background()), fix: fix, pool: map[string]*wire.BlockHeader{}}
 	at := func(h int) *wire.BlockHeader { return fix[h-556000] }
+	w.pool["m3"] = at(splitHeight - 3)
 	w.pool["m2"] = at(splitHeight - 2)
 	w.pool["m1"] = at(splitHeight - 1)
 	w.pool["bsv"] = at(splitHeight)
@@ -70,9 +71,16 @@ func newSplWorld(fix []*wire.BlockHeader) *splWorld {
 	w.pool["x0"] = fab(*at(splitHeight - 1).BlockHash(), 101)
 	w.pool["f1"] = fab(*at(splitHeight - 2).BlockHash(), 102)
 	w.pool["f1x"] = fab(*w.pool["f1"].BlockHash(), 103)
-	w.pool["g2"] = fab(*at(splitHeight - 3).BlockHash(), 104)
+	w.pool["g3"] = fab(*at(splitHeight - 4).BlockHash(), 112)
+	w.pool["g2"] = fab(*w.pool["g3"].BlockHash(), 104)
 	w.pool["g1"] = fab(*w.pool["g2"].BlockHash(), 105)
 	w.pool["g0"] = fab(*w.pool["g1"].BlockHash(), 106)
+	// more work than the real headers around it: this fork of a fork becomes the best chain
+	w.pool["h2"] = fab(*w.pool["g3"].BlockHash(), 110)
+	w.pool["h2"].Bits = 0x1700ffff
+	w.pool["h1"] = fab(*w.pool["h2"].BlockHash(), 113)
+	w.pool["h1"].Bits = 0x1700ffff
+	w.pool["h0"] = fab(*w.pool["h1"].BlockHash(), 111)
 	w.pool["late"] = fab(*at(splitHeight + 1).BlockHash(), 107)
 	var nowhere bitcoin.Hash32
 	nowhere[3] = 0x77
@@ -83,23 +91,23 @@ func newSplWorld(fix []*wire.BlockHeader) *splWorld {
 	return w
 }
 
-// newRepo returns a mainnet repository holding the real chain up to split height - 3.
+// newRepo returns a mainnet repository holding the real chain up to split height - 4.
 func (w *splWorld) newRepo(real bool) (*headers.Repository, error) {
 	repo := headers.NewRepository(headers.DefaultConfig(), storage.NewMockStorage())
 	repo.DisableDifficulty()
 	work := &big.Int{}
 	work.SetString("d167cf38dd7a9c078a40d5", 16)
 	if !real {
-		if err := repo.MockLatest(w.ctx, w.fix[splitHeight-3-556000], splitHeight-3, work); err != nil {
+		if err := repo.VerifMockPruned(w.ctx, w.fix[splitHeight-4-556000], splitHeight-4, work); err != nil {
 			return nil, err
 		}
 		return repo, nil
 	}
 	// the real chain from 556000 with the difficulty check on as soon as there is enough history
-	if err := repo.MockLatest(w.ctx, w.fix[0], 556000, work); err != nil {
+	if err := repo.VerifMockPruned(w.ctx, w.fix[0], 556000, work); err != nil {
 		return nil, err
 	}
-	for i := 1; i <= splitHeight-3-556000; i++ {
+	for i := 1; i <= splitHeight-4-556000; i++ {
 		if i == 151 {
 			repo.EnableDifficulty()
 		}
@@ -136,7 +144,7 @@ func splMain(args []string) int {
 	n := map[string]int{}
 	offers := 0
 	verdicts := map[string]int{}
-	fabricated := map[string]bool{"orph": true, "gen1": true, "x0": true, "f1": true, "f1x": true, "g2": true, "g1": true, "g0": true, "late": true}
+	fabricated := map[string]bool{"orph": true, "gen1": true, "x0": true, "f1": true, "f1x": true, "g2": true, "g1": true, "g0": true, "late": true, "g3": true, "h2": true, "h1": true, "h0": true}
 	var sample []string
 
 	// the split table the code uses, compared with the specification's constants
@@ -193,6 +201,13 @@ func splMain(args []string) int {
 			for step, o := range beh.Offers {
 				offers++
 				verdicts[o.Verdict]++
+				if o.B == "clean" {
+					if err := repo.VerifClean(w.ctx, 1000000); err != nil {
+						divs = append(divs, div{Beh: idx, Step: step, Mode: mode, Line: line, Msg: "clean failed: " + err.Error()})
+						break
+					}
+					continue
+				}
 				got := hdrClassify(repo.ProcessHeader(w.ctx, w.pool[o.B]))
 				if got != wantClass(o.Verdict) {
 					if len(divs) < 50 {
@@ -209,7 +224,7 @@ func splMain(args []string) int {
 						break
 					}
 				}
-				for _, name := range []string{"bch", "x0", "f1x", "g0"} {
+				for _, name := range []string{"bch", "x0", "f1x", "g0", "h0"} {
 					if repo.HashHeight(*w.pool[name].BlockHash()) != -1 {
 						divs = append(divs, div{Beh: idx, Step: step, Mode: mode, Line: line,
 							Msg: fmt.Sprintf("%s is known to the repository at the split height", name)})
